@@ -39,6 +39,9 @@ CHECKS = {
  "C14": dict(level="model_checking", technique="explicit-state BFS over index histories executed in lock-step on two real stores (inmem, tsi1), differential + reference-model oracle on every listing/predicate query after every transition",
    text="BFS (depth 5, 6 thorough) over series creation (4 series, 2 measurements, 2 tag keys), drops by tag predicate, DROP MEASUREMENT, delete-all-points, re-creation, tsi1 index compaction (log file rolled after every write, Index.Compact+Wait), series-file partition compaction, snapshot and reopen, executed in lock-step on an inmem store and a tsi1 store. After every transition 8 predicates (=, !=, =~, !~, empty value, conjunction) x (measurement names, series of each measurement via MeasurementSeriesByExprIterator, host tag values) + tag keys + series cardinality are asked of both stores and compared with the set of series written and not dropped.",
    note="SHOW MEASUREMENTS with negative/empty tag filters is compared differentially only (InfluxQL measurement-level filter semantics); tsi1's stale tag key/value entries are known findings and tolerated so that states behind them are explored; deletes name one measurement (see assumptions in the evidence).", ref="§6 C14"),
+ "C09": dict(level="model_checking", technique="bounded-exhaustive enumeration of input file sets x compaction modes on the real Compactor/FileStore against a newest-wins reference model, plus explicit-state BFS over engine snapshot/compaction operations with injected install failures",
+   text="Every set of 2 (3 thorough) real TSM files (per file 7-8 block layouts of one key x 2-3 of another x 4-5 tombstone shapes incl. partial and whole-key) x {full, fast} x block size {2,1000} (3 thorough) is compacted by the real Compactor and installed by FileStore.Replace: reads through FileStore.KeyCursor before = after = independent newest-wins-minus-tombstones model; output blocks sorted, non-overlapping, within the size limit; no temporary files left. A thinner slice repeats this for integer/unsigned/string/boolean values, with a corrupted input block (run in a child process under a 4 GB / 300 s limit: must fail, leave inputs and no tmp files) and with a failing install. Engine level: BFS (depth 4, 5 thorough) over writes, snapshot, full compaction, snapshot/compaction whose install is refused by a FileStoreObserver, reopen: reads equal the model after every transition.",
+   note="file sets are built directly with TSMWriter/Tombstoner; abort points under a concurrent DisableCompactions are schedule exploration (not built yet).", ref="§6 C09"),
 }
 NA_REASON = "check not built yet in this round (planned in DESIGN.md §6); nothing is claimed for it"
 m = {
